@@ -71,19 +71,32 @@ PROPS["C05"] = {
 }
 
 # ------------------------------------------------------------------ C11
+SPL0 = "distributed::splits"
 PROPS["C11"] = {
-    "files": ["verus/c11_pass2.vrs"],
+    "files": ["verus/c11_pass2.vrs", "kani/splits.rs"],
     "level": "proof",
     "explanation": "enumerate_parquet's pass 2 (the outer loop over the row-group inventory and the equal-row cutting loop) is extracted from the real source on every run "
                    "and verified by Verus for every inventory and every target size: each row group is tiled by contiguous ranges from 0 with >= 1 row each, rows and bytes summing exactly.",
-    "kani": [],
+    "kani": [
+        H(SPL0, "c11_s1_target_split_bytes", "target_split_bytes", "1 <= r <= MAX_SPLIT_BYTES, no overflow, no division by zero; all total_bytes, nodes <= 2^32 (r >= 1 is the cutting loop's precondition)"),
+        H(SPL0, "c11_s1_target_split_bytes_floor", "target_split_bytes", "r < MIN_SPLIT_BYTES only if r*nodes >= total (one split per node is already smaller); nodes in 1..=64", tier="thorough"),
+        H(SPL0, "c11_s6_digest_step_is_invertible_form", "SplitSet::digest (byte-loop body region)", "the step is h -> (h ^ b) * P with P odd and P * PINV == 1 mod 2^64, i.e. a bijection in h and injective in b", lane="KX"),
+        H(SPL0, "c11_s6_digest_empty_set", "SplitSet::digest (whole body, carrier self)", "empty split set: digest == FNV(table name)", lane="KX"),
+        H(SPL0, "c11_s6_digest_is_fnv_of_canonical_stream", "SplitSet::digest (whole body, carrier self)", "digest == FNV-1a(table ++ file ++ row_group LE ++ row_offset LE ++ num_rows LE ++ bytes LE): exactly the canonical fields in this order, nothing else", lane="KX", bound="1 split, 1-byte names", tier="thorough"),
+        H(SPL0, "c11_s5_canonical_key_fields", "Split::canonical_key", "key == (table, file, row_group, row_offset): equal keys <=> same row range of the same (table,file); ignores path/num_rows/bytes; ordering lexicographic"),
+    ],
     "verus": [
         V("c11_pass2", "enumerate_parquet (pass 2: `let mut splits` .. end of `for rg in &inventory`)",
           "for all inventories with rows>=1 and target>=1: exists marks. every row group g is tiled exactly by splits[marks[g]..marks[g+1]] "
           "(contiguous from offset 0, each >=1 row, sum rows == rg.rows, sum bytes == rg.bytes exactly, row_group index preserved); totals equal inventory totals; no overflow"),
     ],
-    "trusted_base": [],
-    "not_under_contract": ["cached_metadata returns the file's real footer (C19)"],
+    "trusted_base": [
+        "u64::div_ceil: only its panic condition (b > 0) is specified; nothing is assumed about its result",
+        "digest sensitivity: 'a change at one position of the canonical stream changes the digest' follows from the verified step form by the ring argument over Z/2^64 (pen and paper); no 64-bit digest can separate ALL contents (pigeonhole)",
+        "carrier for SplitSet/Split in the digest body: exactly the fields the body reads; String as a short byte carrier",
+    ],
+    "not_under_contract": ["cached_metadata returns the file's real footer (C19)", "pass 1 (footer I/O and the two running sums)", "file_key (std Path machinery is beyond CBMC's budget): basenames are assumed pairwise distinct; two files with the same basename in different directories get identical canonical keys (observation D8, not checked)",
+                           "the final sort_by over canonical keys (std sort)"],
     "technique": "Verus loop invariants on the cutting loops extracted mechanically from enumerate_parquet; Kani contracts (all inputs) on target_split_bytes, digest step and canonical keys",
     "level_text": "Deductive and unbounded: Verus proves the tiling/sum postconditions of pass 2 for every inventory size, row count, byte size and target; loop-free helpers are proved by Kani for all inputs.",
     "level_note": "Trusted: Verus/Z3, Kani/CBMC; extraction rewrites R1 (dropped String/PathBuf fields), R2 (continue), R5 (indexed iteration), R3 (u64::div_ceil spec, cross-checked by Kani); footer contents are the file's.",
@@ -133,11 +146,14 @@ PROPS["C12"] = {
                    "split multiset, order and node count: each index is owned exactly as often as it occurs in the order (a partition when the order is a permutation), per-node byte and row "
                    "totals are the sums of what each node owns, totals are conserved, the chosen node is a least-loaded one, and max load <= total/N + largest split (list-scheduling bound). "
                    "Determinism: the loop is a function of (splits, order, nodes) with no hidden state.",
-    "kani": [],
+    "kani": [
+        H(SPL, "c12_b_assign_lpt_whole", "assign_lpt (whole function), Assignment::idle_nodes", "every split owned exactly once, totals are sums, per-node lists in canonical order, larger split first with canonical tie-break, idle_nodes exact", lane="B", bound="2 splits, <= 2 nodes", tier="thorough"),
+    ],
     "verus": [
         V("c12_lpt", "assign_lpt (greedy loop: `for idx in order` with the inner `for n in 1..nodes`)",
           "partition by counting (cnt_all(per_node) == cnt(order) for every index), node_bytes[k] == sum bytes, node_rows[k] == sum rows over per_node[k], conservation of both totals, "
-          "least-loaded choice, N*node_bytes[k] <= total + N*maxb; no overflow under total bytes <= u64::MAX and total rows <= i64::MAX"),
+          "least-loaded choice, N*node_bytes[k] <= total + N*maxb; no overflow under total bytes <= u64::MAX and total rows <= i64::MAX",
+          twin=[f"{SPL}::verif_kani::c12_b_assign_lpt_whole"]),
     ],
     "trusted_base": ["Graham 1969: (4/3 - 1/(3N)) * OPT for LPT order is cited, not machine-checked; the list-scheduling bound total/N + max is proved"],
     "not_under_contract": ["the two sorts (processing order, per-node canonical order) and the Assignment glue are only covered by the bounded whole-function harness"],
@@ -275,6 +291,49 @@ PROPS["C42"] = {
     "technique": "Kani contract (all inputs) on workers_for; Kani on the verbatim loop body of parse_cpulist with the std string API as a carrier type",
     "level_text": "workers_for: deductive for all inputs. parse_cpulist: the part-level logic is proved for all ids with the range loop bounded at width 4 (labelled bounded); string splitting/parsing is assumed from std.",
     "level_note": "Trusted: Kani/CBMC; carrier contracts for std str methods; std sort/dedup.",
+}
+
+# ------------------------------------------------------------------ C03
+OC3 = "optimizer::rules::packed_join_keys"
+PROPS["C03"] = {
+    "files": ["verus/c03_pack_join.vrs", "verus/c03_pack_group.vrs", "verus/c03_eager_keys.vrs", "verus/c03_common.inc", "kani/optimizer_c03.rs"],
+    "level": "proof",
+    "explanation": "Decided for the statistics guards only: every rule that rewrites on the strength of footer statistics has a guard whose truth must imply the fact the rewrite needs, for every table "
+                   "consistent with sound statistics (C18). The arithmetic regions of PackedJoinKeys::try_pack, PackedGroupKeys::try_pack and EagerAggregation::build_keys are copied from the real source "
+                   "and verified by Verus (all bounds, unbounded) and again by Kani (bit-precise, loop-free, all inputs): over the whole in-bounds key domain the packed value a*K + c is computed without "
+                   "i64 overflow and is injective, the same K is used on both sides, and the unpack literals (shift, mask) return the original pair. The uniqueness gates of GroupKeyReduction::is_unique_key "
+                   "and EagerAggregation::try_rewrite_left_count are checked against every 3-row table consistent with the statistics.",
+    "kani": [
+        H(OC3, "c03_r3_checked_next_power_of_two", "u64::checked_next_power_of_two (std)", "cross-check of the assume_specification used by the Verus unit, all u64"),
+        H(OC3, "c03_r3_next_power_of_two", "u64::next_power_of_two (std)", "cross-check of the assume_specification used by the Verus units, all x <= 2^63"),
+        H(OC3, "c03_g1_guard_nonneg", "PackedJoinKeys::try_pack (guard region)", "passes iff all four lower bounds are >= 0 (precondition of the arithmetic region)", lane="KX"),
+        H(OC3, "c03_g1_join_pack_twin", "PackedJoinKeys::try_pack (arithmetic region)", "Some(k) ==> for all in-bounds (a,c),(a',c'): a*k+c does not overflow (checked_mul/checked_add) and is injective; all bounds", lane="KX"),
+        H(OC3, "c03_g2_group_pack_unpack_roundtrip", "PackedGroupKeys::try_pack (arithmetic region)", "Some((k,shift,mask)) ==> lower bounds >= 0, a*(k as i64)+b does not overflow, (pk >> shift, pk & mask) == (a,b); all bounds, all in-bounds keys", lane="KX"),
+        H(OC3, "c03_g3_eager_pack_twin", "EagerAggregation::build_keys (arithmetic region)", "Some(k) ==> packing with literal k is overflow-free and injective over the in-bounds domain; all bounds", lane="KX"),
+        H(OC3, "c03_g4_unique_gate", "GroupKeyReduction::is_unique_key (gate region)", "true ==> every table consistent with the statistics has no NULL and no duplicate", lane="KX", bound="3-row tables, values in (-1000,1000)", finding="D3"),
+        H(OC3, "c03_g4_unique_gate__excluding_known", "GroupKeyReduction::is_unique_key (gate region)", "same, outside class D3 (tables with duplicate values): true ==> no NULL", lane="KX", bound="3-row tables"),
+        H(OC3, "c03_g4_left_count_gate", "EagerAggregation::try_rewrite_left_count (gate region)", "gate passes ==> no NULL and no duplicate in every consistent table", lane="KX", bound="3-row tables", finding="D3"),
+        H(OC3, "c03_g4_left_count_gate__excluding_known", "EagerAggregation::try_rewrite_left_count (gate region)", "same, outside class D3", lane="KX", bound="3-row tables"),
+        H(OC3, "c03_g4_gates_need_statistics", "both uniqueness gates", "missing null count, non-zero null count or missing NDV estimate never prove uniqueness", lane="KX"),
+    ],
+    "verus": [
+        V("c03_pack_join", "PackedJoinKeys::try_pack (`let max2` .. `let k = k as i64;`)", "Some(k) ==> pack_ok(k, max(b0.hi,b1.hi), max(b2.hi,b3.hi)): product and packed value within 0..=i64::MAX, injective; unbounded (mathematical integers)",
+          twin=[f"{OC3}::verif_kani::c03_g1_join_pack_twin"]),
+        V("c03_pack_group", "PackedGroupKeys::try_pack (`if a_min < 0 || b_min < 0` .. `let mask`)", "Some((k,..)) ==> a_min,b_min >= 0 and pack_ok(k as i64, a_max, b_max)",
+          twin=[f"{OC3}::verif_kani::c03_g2_group_pack_unpack_roundtrip"]),
+        V("c03_eager_keys", "EagerAggregation::build_keys (`let k1_max` .. `let k = k as i64;`)", "Some(k) ==> pack_ok(k, bounds[0], bounds[1])",
+          twin=[f"{OC3}::verif_kani::c03_g3_eager_pack_twin"]),
+    ],
+    "trusted_base": [
+        "statistics are sound bounds (C18): min_i64 <= v <= max_i64, null_count exact; ndv_est is min(non_null, max-min+1) as compute_statistics derives it",
+        "assume_specification for u64::checked_next_power_of_two / next_power_of_two, each discharged against the real std function by a Kani harness (c03_r3_*)",
+        "carriers KColStats / KTabStats: the three fields the gates read",
+        "the plan places exactly the k / shift / mask computed by the region (construction code not under contract)",
+    ],
+    "not_under_contract": ["every rule that does not consult statistics, and the rewrites themselves (plan-to-plan equivalence needs a semantics for LogicalPlan)", "HashMap<String,_> statistics lookups (column_bounds, column_stats_for)", "JoinReorder cardinality estimates (estimates only reorder)"],
+    "technique": "Verus on the verbatim arithmetic regions of the three packing rules + Kani (bit-precise, all inputs) on the same regions and on the uniqueness gates",
+    "level_text": "Deductive for the guards: for all statistics values the guard implies overflow-freedom and injectivity of the packed key over every consistent table (Verus over mathematical integers, Kani over machine integers). Uniqueness gates: bounded at 3-row tables.",
+    "level_note": "Trusted: Verus/Z3, Kani/CBMC; statistics sound (C18); std power-of-two functions cross-checked; lookups and plan construction outside. Known finding D3 (uniqueness inferred from an NDV upper bound) excluded by class.",
 }
 
 
